@@ -70,7 +70,7 @@ func runHistory(r *vf.Run, calls []hcall, listing bool, capacity int, tag string
 }
 
 func C06(r *vf.Run) {
-	r.Rule = "generated emitter call histories (1-400 calls: instructions, data, labels, all 8 label-taking methods, forward/backward/multiple/missing references, duplicate-label attempts) with padding chosen so that branch displacements -129,-128,-127,-2,0,+1,+126,+127,+128 occur, plus programs spanning almost a whole bank with references around the +-32 KiB and +-64 KiB marks; six base-address classes; target buffers exactly full, with 1-3 spare bytes, and roomy; a shadow model predicts the Finalize outcome and every byte; a cell is (reference kinds, outcome, boundary distances hit, base class)"
+	r.Rule = "generated emitter call histories (1-400 calls: instructions, data, labels, all 8 label-taking methods, forward/backward/multiple/missing references, duplicate-label attempts) with padding chosen so that branch displacements -129,-128,-127,-2,0,+1,+126,+127,+128 occur, plus programs spanning almost a whole bank with references around the +-32 KiB and +-64 KiB marks; six base-address classes; target buffers exactly full, with 1-3 spare bytes, and roomy; a shadow model predicts the Finalize outcome and every byte, also for a second Finalize and for Finalize after further emission; a cell is (reference kinds, outcome, boundary distances hit, base class)"
 	r.Assume = []string{"programs stay within one bank and SetBase is called at most once before the first emission (as quantified)"}
 	if !r.Phase("histories") {
 		return
@@ -211,13 +211,66 @@ func C06(r *vf.Run) {
 			if d := obsBefore.diff(obsAfter); d != "" {
 				r.Fail("finalize-changes-state", "Finalize changed "+d, hs())
 			}
+			// Finalize again: the same condition holds, so the same outcome is due and nothing may change
+			{
+				snap := append([]byte(nil), e.Bytes()...)
+				var err2 error
+				pan2 := vf.Try(func() { err2 = e.Finalize() })
+				switch {
+				case pan2 != nil:
+					r.Fail("finalize-twice-panic", fmt.Sprintf("second Finalize panicked: %v", pan2), hs())
+				case fe.ok && err2 != nil:
+					r.Fail("finalize-twice", fmt.Sprintf("second Finalize fails (%v) after a successful one", err2), hs())
+				case !fe.ok && err2 == nil:
+					r.Fail("finalize-twice", "second Finalize succeeds although the first one reported a failing reference and nothing changed", hs())
+				case fe.ok && string(e.Bytes()) != string(snap):
+					r.Fail("finalize-twice", "second Finalize changed bytes", hs())
+				}
+				cells["finalize-twice:"+outcome]++
+			}
+			// incremental use: keep emitting after a successful Finalize and finalize again
+			if fe.ok && capacity > len(sh.code)+600 && g.Intn(2) == 0 {
+				more, _, _ := genHistory(g, histOpts{maxCalls: 40, listing: listing, withRefs: true})
+				okMore := true
+				for _, c := range more {
+					if c.Op == "setbase" || c.Op == "assumesep" || c.Op == "assumerep" {
+						continue
+					}
+					if c.Op == "label" || (c.Op == "ins" && (c.M.Arg == aLabel8 || c.M.Arg == aLabel16)) {
+						c.S = "m_" + c.S // fresh label namespace for the second stage
+					}
+					if !sh.legal(c) {
+						continue
+					}
+					if pan := invoke(e, c); pan != nil {
+						okMore = false
+						break
+					}
+					sh.apply(c)
+					calls = append(calls, c)
+				}
+				if okMore && len(sh.code) <= capacity {
+					fe2 := sh.expectFinalize()
+					var err3 error
+					pan3 := vf.Try(func() { err3 = e.Finalize() })
+					switch {
+					case pan3 != nil:
+						r.Fail("finalize-incremental-panic", fmt.Sprintf("Finalize after further emission panicked: %v", pan3), hs())
+					case fe2.ok != (err3 == nil):
+						r.Fail("finalize-incremental-outcome", fmt.Sprintf("Finalize after further emission: err=%v, expected success=%v", err3, fe2.ok), hs())
+					case fe2.ok && string(e.Bytes()) != string(fe2.code):
+						r.Fail("finalize-incremental-bytes", fmt.Sprintf("after emitting more code and finalizing again byte %d differs from the expected patched program", firstDiff(e.Bytes(), fe2.code)), hs())
+					}
+					cells["finalize-incremental"]++
+				}
+			}
 			if ci == 0 && k < 3 {
 				r.Sample(map[string]interface{}{"calls": hs()[:min(len(calls), 14)], "n_calls": len(calls), "base": base, "expected": outcome, "refs": len(sh.refs)})
 			}
 		}
 		r.MergeCells(cells)
 	})
-	for _, d := range []string{"back-129", "back-128", "back-127", "back-2", "fwd0", "fwd1", "fwd126", "fwd127", "fwd128", ":fail:", ":ok:", "abs16", "dist:farfwdf", "dist:farbackf", "dist:farfwd7", "dist:farback8", "dist:farjmp", "dist:hot-label"} {
+	for _, d := range []string{"back-129", "back-128", "back-127", "back-2", "fwd0", "fwd1", "fwd126", "fwd127", "fwd128", ":fail:", ":ok:", "abs16", "dist:farfwdf", "dist:farbackf", "dist:farfwd7", "dist:farback8", "dist:farjmp", "dist:hot-label", "finalize-twice:ok", "finalize-twice:fail", "finalize-incremental"} {
 		r.RequireSub(d)
 	}
 }
